@@ -141,6 +141,22 @@ def run(ck: Check):
             impl.append(f"{got} {rd.return_code}")
         ck.sample({"child": "exit 77, files", "status": [x for x in results if x[0]["name"] == "exit77"][0][1].status.name})
 
+        # re-use of a log prefix (as `repeat` does): the files must hold exactly the new output
+        reuse = os.path.join(work, "reuse")
+        for n1, n2 in ((200000, 10), (10, 5000), (5000, 0), (7, 7)):
+            for n in (n1, n2):
+                rd = timed_run([PY, "-c", child(0), b"A".hex(), str(n), b"B".hex(), str(n // 2)], 20, reuse)
+                with open(rd.out, "rb") as f:
+                    out = f.read()
+                with open(rd.err, "rb") as f:
+                    err = f.read()
+                ck.count("reuse")
+                ck.nontrivial(("reuse", n1, n2, n))
+                if out != b"A" * n or err != b"B" * (n // 2):
+                    ck.violation(f"timed_run with a re-used log prefix: stdout file has {len(out)} bytes, the child "
+                                 f"wrote {n}; stderr file {len(err)}, the child wrote {n // 2}",
+                                 {"reuse": True, "sizes": [n1, n2], "n": n})
+
         # the decision chain in isolation: stub child with arbitrary return codes
         class FakeChild:
             pid = 0
